@@ -57,7 +57,7 @@ if _role == 'child' and ('stderr_cut' in _env or 'stderr_pre' in _env
                 # bytes of the report are being dropped: the report IS cut
                 if self._cut_logged < 8:
                     self._cut_logged += 1
-                    _log.emit('ReportCut', at=cut,
+                    _log.emit('ReportCut', at=cut, die=bool(_env.get('die_at_cut')),
                               lost=data[room:][:60].decode('latin-1'))
                 if _env.get('die_at_cut'):
                     worldlib.crash(_env['die_at_cut'])
